@@ -90,7 +90,8 @@ def r_none(prog, tier):
                             for t in (m.ast.targets if isinstance(m.ast, ast.Assign) else [m.ast.target]):
                                 if isinstance(t, ast.Subscript) and isinstance(t.value, ast.Attribute) and t.value.attr == 'data':
                                     ks = data_key(prog, f, t)
-                                    if ks is None or fld in ks:
+                                    same_node = unparse(t.value.value) == X or root_name(t.value.value) == root
+                                    if (ks is None or fld in ks) and same_node:
                                         stores.append(m)
                                 elif isinstance(t, ast.Attribute) and t.attr == 'data':
                                     stores.append(m)
